@@ -68,8 +68,24 @@ SelfCases == [i \in 1..Len(BuiltinSeq) |-> LET b == BuiltinSeq[i]  o == BuiltinS
    [t |-> << SPrint(Bin("==", Id(b), Id(b))), SPrint(Bin("!=", Id(b), Id(b))), SVar("h", Id(b)), SPrint(Bin("==", Id("h"), Id(b))), SPrint(Bin("==", Id(b), Id(o))),
              SPrint(Bin("==", Arr(<<Id(b)>>), Arr(<<Id(b)>>))), SPrint(Id(b)), SPrint(Arr(<<Id(b)>>)), SIf(Id(b), SPrint(Num(1)), SPrint(Num(2))), SPrint(Bin("==", Id(b), Lit(VNil))) >>,
     c |-> "builtin-as-value", key |-> "self:" \o b, stdin |-> <<>>]]
-Cases == MisuseCases \o InputCases \o UnaryCases \o PowCases \o MinMaxCases \o SelfCases
-Programs == [i \in 1..Len(Cases) |-> LayoutProg(Cases[i].t, 1)]
+(* built-in calls inside the arguments of built-in calls, after earlier calls *)
+Ab(n) == Call(Id("abs"), <<Neg(Num(n))>>)
+NestedCases == <<
+  [t |-> << SExpr(Ab(7)), SPrint(Call(Id("min"), <<Num(1), Ab(5)>>)), SPrint(Call(Id("pow"), <<Num(2), Ab(3)>>)), SPrint(Bin("**", Num(2), Ab(3))),
+            SPrint(Call(Id("max"), <<Ab(1), Ab(2), Ab(3)>>)), SPrint(Call(Id("min"), <<Call(Id("max"), <<Num(1), Num(9)>>), Call(Id("max"), <<Num(2), Call(Id("min"), <<Num(8), Num(7)>>)>>)>>)),
+            SPrint(Call(Id("push"), <<Arr(<<>>), Call(Id("len"), <<Arr(<<Num(1)>>)>>), Call(Id("len"), <<Arr(<<Num(1), Num(2)>>)>>), Call(Id("round"), <<NumLit("2.5")>>)>>)),
+            SPrint(Call(Id("round"), <<Call(Id("sqrt"), <<Call(Id("pow"), <<Num(3), Call(Id("abs"), <<Neg(Num(4))>>)>>)>>)>>)),
+            SPrint(Call(Id("remove"), <<Call(Id("push"), <<Arr(<<Num(5)>>), Ab(6)>>), Call(Id("len"), <<Arr(<<Num(0)>>)>>)>>)) >>,
+   c |-> "nested-builtins", key |-> "nested:numeric", stdin |-> <<>>],
+  [t |-> << SFun("u", <<"a", "b">>, <<SReturn(Bin("-", Id("a"), Id("b")))>>), SPrint(Call(Id("u"), <<Ab(9), Call(Id("u"), <<Ab(1), Ab(2)>>)>>)),
+            SPrint(Call(Id("min"), <<Call(Id("u"), <<Num(5), Ab(2)>>), Ab(4)>>)), SPrint(Call(Id("max"), <<Arr(<<Ab(1), Call(Id("min"), <<Num(7), Ab(8)>>)>>)>>)),
+            SPrint(Call(Id("min"), <<Lit(VBool(TRUE)), Num(5), Num(2)>>)) >>,
+   c |-> "nested-builtins", key |-> "nested:user-and-builtin", stdin |-> <<>>],
+  [t |-> << SPrint(Call(Id("max"), <<Arr(<<Num(4), Lit(S("abc")), Num(2)>>)>>)) >>, c |-> "minmax:string-in-array", key |-> "max([4,abc,2])", stdin |-> <<>>],
+  [t |-> << SPrint(Call(Id("min"), <<Lit(VNil), Num(2)>>)) >>, c |-> "minmax:nil-first", key |-> "min(nil,2)", stdin |-> <<>>],
+  [t |-> << SPrint(Call(Id("max"), <<Num(1), Arr(<<>>), Num(2)>>)) >>, c |-> "minmax:array-in-the-middle", key |-> "max(1,[],2)", stdin |-> <<>>] >>
+Cases == MisuseCases \o InputCases \o UnaryCases \o PowCases \o MinMaxCases \o SelfCases \o NestedCases
+Programs == TLCEval([i \in 1..Len(Cases) |-> LayoutProg(Cases[i].t, 1)])
 FamProgOf(i) == Programs[i]
 Init == \E i \in 1..Len(Programs) : InitSem(i, Cases[i].stdin, FALSE)
 Next == SemNext
